@@ -563,6 +563,10 @@ def special_binop(I, op, a, b):
             seq, n = (a, b) if isinstance(a, RLESeq) else (b, a)
             return seq_repeat(I, seq, n)
         raise EngineError(f"{op} on run-length sequence")
+    if op in ("&", "|", "-", "^") and (isinstance(a, _KeysView) or isinstance(b, _KeysView)):
+        # dict key views support the set operators
+        a = set(a) if isinstance(a, _KeysView) else a
+        b = set(b) if isinstance(b, _KeysView) else b
     if op == "+" and isinstance(a, list) and isinstance(b, list):
         return a + b
     if op == "+" and isinstance(a, tuple) and isinstance(b, tuple):
